@@ -2,7 +2,11 @@
 
 package NoKV
 
-import "sync/atomic"
+import (
+	"sync/atomic"
+
+	"github.com/feichai0017/NoKV/kv"
+)
 
 // VerifQueueThrottle toggles the L0 write throttle through the LSM callback path.
 func (db *DB) VerifQueueThrottle(on bool) { db.lsm.VerifQueueThrottle(on) }
@@ -15,3 +19,22 @@ func (db *DB) VerifQueuePauseCompaction() { db.lsm.VerifQueuePauseCompaction() }
 
 // VerifQueueMemFree: free accounted space of the active memtable (see lsm.VerifQueueMemFree).
 func (db *DB) VerifQueueMemFree() int64 { return db.lsm.VerifQueueMemFree() }
+
+// VerifQueueRawWrite sends one entry whose INTERNAL key is given verbatim (it may be empty, which
+// the LSM rejects) through the commit pipeline the way batchSet does, and waits for it.
+// Used to make one request of a commit batch fail in lsm.SetBatch.
+func (db *DB) VerifQueueRawWrite(internalKey, value []byte) error {
+	e := kv.NewEntry(internalKey, value)
+	req, err := db.sendToWriteCh([]*kv.Entry{e}, true)
+	if err != nil {
+		e.DecrRef()
+		return err
+	}
+	return req.Wait()
+}
+
+// VerifQueueLen is the number of requests pushed and not yet popped by the commit worker.
+func (db *DB) VerifQueueLen() int64 { return atomic.LoadInt64(&db.commitQueue.queueLen) }
+
+// VerifQueueAdjustThrottle runs the LSM's AdjustThrottle once (compaction cycles are paused).
+func (db *DB) VerifQueueAdjustThrottle() { db.lsm.VerifQueueAdjustThrottle() }
